@@ -3,37 +3,52 @@
 //
 // What is run (quick | thorough):
 //
-//	decode:  ~1000 hand-written protobuf edge cases, 3000 | 100000 pseudo-random byte strings
-//	         and as many mutations (bit flips, truncations, splices, ...) of valid encodings, each
-//	         given to DecodeUnixFSData, DecodeUnixTime and DecodeUnixFSMetadata;
-//	hamt:    hand-built HAMTs (fanouts {8,256} | {8..1024}): every shard defect (bitfield, fanout,
-//	         hash type, link names, Tsize) at the root and one and two levels down, every hostile
-//	         kind of child under a child link, children of another fanout, chains that use up
-//	         the 64 hash bits, shared children (same child in every bucket; a two-wide lattice);
+//	decode:  848 hand-written protobuf edge cases, 3000 | 100000 pseudo-random byte strings and
+//	         as many mutations (bit flips, truncations, splices, ...) of valid encodings, each
+//	         given to DecodeUnixFSData, DecodeUnixTime and DecodeUnixFSMetadata
+//	         (decode:<data|time|meta>:<input>);
+//	hamt:    hand-built HAMTs (fanouts {8,256} | {8,16,...,1024}): every shard defect (bitfield,
+//	         fanout, hash type, link names, Tsize) at the root and one and two levels down, every
+//	         hostile kind of child under a child link, children of another fanout, chains that
+//	         use up the 64 hash bits, shared children (the same child in every bucket; a two-wide
+//	         lattice);
 //	file:    hand-built file DAGs: every defect of an interior node (blocksizes, FileSize, Tsize)
 //	         over pb / raw / mixed children at depth 1..3, every hostile kind of child first /
 //	         middle / last / alone with sizes recorded or not, deep chains, wide nodes, shared
-//	         children;
+//	         children (with content, and a lattice over empty leaves);
 //	dir, type, data: directories with absent / empty / duplicate names, every DataType 0..5 and
 //	         unknown ones over six link shapes, Data absent / empty / each hand-written decoder
 //	         input as the Data of a block with links;
-//	rand:    300 | 5000 seeded random DAGs assembled from the same ingredients.
+//	rand:    300 | 5000 seeded random DAGs (dag-pb and raw blocks only) assembled from the same
+//	         ingredients; DAG i depends on (VERIF_SEED, i) alone.
 //
-// Every root is loaded as dag-pb and reified through unixfsnode.Reify and the "unixfs-preload"
-// reifier registered by AddUnixFSReificationToLinkSystem (hand cases marked full also through
-// "unixfs" and through traversals with the entity / preload selectors). A reify error is an
-// acceptable outcome. Every node that comes back is put through Kind, Length, the four lookups
-// (+ native Lookup), full MapIterator / native Iterator iteration (going on after errors, and
-// stopping at the first), AsBytes, AsLargeBytes + Read to EOF + Seek with all whence values and
-// negative / past-the-end / extreme offsets.
+// Cases whose hostile child is a block of another codec than dag-pb / raw (dag-json, dag-cbor)
+// have a class of their own: "hamt-foreign:", "file-foreign:".
+//
+// Every root is loaded as dag-pb and reified through unixfsnode.Reify and through the
+// "unixfs-preload" reifier registered by AddUnixFSReificationToLinkSystem; "full" cases (a
+// choice of hand-built ones | every hand-built one of at most 300 blocks) also through the
+// "unixfs" reifier and through traversals with the entity / preload / explore-all selectors and
+// BytesConsumingMatcher. A reify error is an acceptable outcome. Every node that comes back is
+// put through Kind, Length, LookupByString / ByNode / BySegment (+ native Lookup) for up to
+// ~50 | ~90 keys, LookupByIndex, full MapIterator / native Iterator iteration (going on after
+// errors, and stopping at the first; one call past the end), AsBytes, AsLargeBytes + Read to
+// EOF + Seek with whence 0, 1, 2 (full: also invalid ones) and zero / negative / past-the-end /
+// extreme offsets, a Read after every Seek.
 //
 // A case fails when an operation
-//   - panics (the detail names the operation, the panic value and the top of the stack);
-//   - loads more than 10*(blocks+links of the whole DAG)+10 blocks, makes an iterator yield more
-//     than 10*links+10 pairs, or a reader more than that many read calls / more than
-//     10*stored bytes+4096 bytes ("unbounded work"); past the load budget the store refuses
-//     further loads so that runaway work comes to an end;
-//   - or the case as a whole does not finish within 5 s | 20 s (watchdog).
+//   - panics (the detail names the operation, the panic value and the innermost frames);
+//   - loads more than 10*(blocks+links of the whole DAG)+10 blocks ("the yardstick"), makes an
+//     iterator yield more than 10*links+10 pairs, a reader need more read calls than the
+//     yardstick or yield more than 10*stored bytes+4096 bytes, or a traversal visit more than ten
+//     yardsticks of nodes: "unbounded work". Past the load budget the store refuses further
+//     loads, so that runaway work comes to an end;
+//   - or when the case as a whole does not finish within 5 s | 20 s (watchdog; the detail names
+//     the operation under way).
+//
+// One root cause usually shows in many operations of a case: failures are reported once per
+// (case, signature), naming the first operation and counting the others; a case that has blown
+// the same budget in six operations is abandoned (every such operation costs the whole budget).
 package c13
 
 import (
